@@ -104,23 +104,23 @@ def readEntries : Nat → Bytes → List (Nat × Nat) → Res (List (Nat × Nat)
       else readEntries fuel r2 ((length, rc) :: acc)
     | _ => pure acc.reverse          -- `while let Ok(..)`: end of data ends the loop
 
+/-- `build_from_data`: cut the data stream into the entries' strings -/
+def buildStrings (cp : Nat) : List (Nat × Nat) → Bytes → List (List Char × Nat) → Res (List (List Char × Nat))
+  | [], _, acc => pure acc.reverse
+  | (len, rc) :: rest, data, acc => do
+    let (bs, data') ← readExact len data
+    match Codec.decode cp bs with
+    | none => .err .unmodelled
+    | some s => buildStrings cp rest data' ((s, rc) :: acc)
+
 /-- `read_from_pool` then `build_from_data` -/
 def read (poolBytes dataBytes : Bytes) : Res Pool := do
   let (hdr, r) ← readU32 poolBytes
   let long := hdr ≥ Gen.longStringRefsBit
   let idNat := hdr % Gen.longStringRefsBit
-  let cp ← match CodePage.fromId (idNat : Int) with
-    | some cp => pure cp
-    | none => .err .invalidData
+  let cp ← Res.ofOption (CodePage.fromId (idNat : Int)) .invalidData
   let entries ← readEntries (r.length + 1) r []
-  let rec build : List (Nat × Nat) → Bytes → List (List Char × Nat) → Res (List (List Char × Nat))
-    | [], _, acc => pure acc.reverse
-    | (len, rc) :: rest, data, acc => do
-      let (bs, data') ← readExact len data
-      match Codec.decode cp bs with
-      | none => .err .unmodelled
-      | some s => build rest data' ((s, rc) :: acc)
-  let strings ← build entries dataBytes []
+  let strings ← buildStrings cp entries dataBytes []
   pure ⟨cp, strings, long, false⟩
 
 end Pool
